@@ -56,9 +56,13 @@ Theorem C01_fail_on_skipped_over_summarize :
 Proof. exact verdict_fos_over_summarize. Qed.
 
 (* Tee fails iff one of its sides does; every pipeline's verdict is the default rule on the getters it reports *)
+(* [definitional] unfolds the model's own definition: a pinned reading of the model (it breaks when the model is edited),
+   not evidence for the property by itself — the model is tied to the code by the correspondence check *)
 Theorem C01_tee :
   forall l r sl sr, qfailed (QTee l r) (TTwo sl sr) = qfailed l sl || qfailed r sr.
 Proof. exact verdict_tee. Qed.
+(* [definitional] unfolds the model's own definition: a pinned reading of the model (it breaks when the model is edited),
+   not evidence for the property by itself — the model is tied to the code by the correspondence check *)
 Theorem C01_verdict_is_default_rule_on_getters :
   forall p s, qfailed p s = g_has_failed (qgetters p s).
 Proof. exact qfailed_getters. Qed.
@@ -138,6 +142,8 @@ Print Assumptions C01_verdict_of_every_pipeline_general.
 (* THE LAST LINK: `run_and_exit` (Model/Exit.v, tied to src/cucumber.rs:1199-1237 by the `exit` engine) panics — the
    test binary exits non-zero — exactly when the writer's getters say that execution has failed, and its message has a
    part for exactly the non-zero ones of failed steps, parsing errors and hook errors *)
+(* [definitional] unfolds the model's own definition: a pinned reading of the model (it breaks when the model is edited),
+   not evidence for the property by itself — the model is tied to the code by the correspondence check *)
 Theorem C01_run_and_exit_panics_iff_failed :
   forall g, (Exit.run_and_exit g = None <-> g_has_failed g = false) /\
             (forall parts, Exit.run_and_exit g = Some parts ->
